@@ -49,3 +49,46 @@ LEVEL_TEXT = ("Machine-checked Coq theorems over ALL schedules and environment t
               "sessions dropped with frame, id sequence/uniqueness with the wrap written out. The harness fault sequences are proved to be "
               "schedules of the model; model and real code are run on the same sequences each run and every handler event, callback count, "
               "push count, goroutine count and EOF flag is compared. Partial: release of goroutines/socket is measured, not proved.")
+
+
+def _targets(ops):
+    """connection tokens the sequence works on, most used first"""
+    cnt = {}
+    for o in ops:
+        (name, args), = o.items()
+        if args and isinstance(args[0], int) and name not in ("OTick", "OSetNext", "OBurst", "ORealTicker", "OTcp"):
+            cnt[args[0]] = cnt.get(args[0], 0) + 1
+    return sorted(cnt, key=lambda c: -cnt[c])
+
+
+def shrink_candidates(ops):
+    """Smaller fault sequences to try, cheapest information first: a few canonical probes built
+    from the features of the failing sequence (a full send queue, a malformed handshake, a
+    message in flight), then delta-debugging chunks from halves down to single operations.
+    A case that leaks costs a teardown watchdog, so every round is kept short."""
+    n = len(ops)
+    if n <= 1:
+        return []
+    names = [list(o.keys())[0] for o in ops]
+    cands = []
+
+    def add(c):
+        if len(c) < n and c not in cands:
+            cands.append(c)
+
+    tg = _targets(ops)
+    c = tg[0] if tg else 1
+    work = [{"OConnect": [c]}, {"OSend": [c, "PHandshake"]}, {"ORelease": [c]}, {"OSend": [c, "PAck"]}, {"ORelease": [c]}]
+    if "OFlood" in names:
+        fl = next(o for o in ops if "OFlood" in o)
+        for closer in ({"OCloseExt": [c]}, {"OKick": [c]}, {"OClientClose": [c]}):
+            add([{"OConnect": [c]}, {"OWstall": [c]}, fl, closer, {"ODrain": []}])
+            add(work + [{"ODrain": []}, {"OWstall": [c]}, fl, closer, {"ODrain": []}])
+    chunk = n // 2
+    while chunk >= 1 and len(cands) < 20:
+        for i in range(0, n, chunk):
+            add(ops[:i] + ops[i + chunk:])
+            if len(cands) >= 20:
+                break
+        chunk //= 2
+    return cands[:20]
